@@ -296,7 +296,8 @@ def harnesses(tier: str) -> List[H]:
     for (name, is_async, fixed, extra) in (
             ("bind_fail_post", False, {"fail_post": True, "ask_zz": False}, [B("po")]),
             ("bind_missing_name", False, {"fail_post": False, "ask_zz": True, "po": True}, []),
-            ("bind_async", True, {"ask_zz": False}, [B("fail_post"), B("po")])):
+            ("bind_async", True, {"ask_zz": False, "po": True}, [B("fail_post")]),
+            ("bind_async_err_only_OLD", True, {"ask_zz": False, "po": False}, [B("fail_post")])):
         params = [I("si", 0, n - 1), I("npos", 0, 4), B("kc"), B("ke"), B("ka"), B("kz")] + extra + [I("v0", -5, 5), I("v1", -5, 5)]
         defaults = {"kd": False, "kf": False}
         defaults.update(fixed)
@@ -307,6 +308,8 @@ def harnesses(tier: str) -> List[H]:
                                                "the postcondition and its error factory, or by the error factory only (which then "
                                                "also has a defaulted parameter unknown to f)",
                              "bind_missing_name": "the precondition additionally asks for the name 'zz'",
-                             "bind_async": "async def rendering"}[name]),
+                             "bind_async": "async def rendering",
+                             "bind_async_err_only_OLD": "async def rendering; only the error factory asks for OLD (and the "
+                                                        "capture / error factory have defaulted parameters)"}[name]),
                      family_size=n, grid=300))
     return out
